@@ -95,7 +95,21 @@ EXPLANATION = (
     'wrap-around basin by ONE of its two seam tests - which the '
     'weak-ordering rule cannot read.  The gate ARITHMETIC for SYMBOLIC '
     'boundary sets is still not decided: that needs a solver, a different '
-    'technique family; only source literals are folded.')
+    'technique family; only source literals are folded.  Added in the fifth '
+    'hardening wave (survivors of the generic mutants): (D1.angles-wrap-mask) '
+    'the in-place wrap moves exactly the negative angles (strict `< 0`: an '
+    'angle of 0 must not cross the seam); (D3.gates.buffer-admitted) no '
+    'validation condition of _rotamers excludes a buffer of [0, (360 - widest '
+    'basin) / 2) for a literal boundary set the wrappers pass (each condition '
+    'is folded to a half-line of buffers); (D1.drivers.*) every wrapper runs '
+    'the machine once per COLUMN of the (n_frames, n_dihedrals) angle array - '
+    'the one it brought into [0, 360) - inside a loop over the extent of axis '
+    '1, stores the states into the same column of the array it returns first '
+    'and passes its own buffer parameter on; a function that fetches dihedral '
+    'angles but returns an untouched allocation never ran the machine; '
+    '(D1.drivers.angle-source) for the literal dihedral types the wrappers '
+    'request, the membership test of dihedral_angles (folded over the literal '
+    'list) leads to the return of the pair they unpack, not to the reject value.')
 
 
 # ---------------------------------------------------------------------------
@@ -1754,6 +1768,67 @@ def _buffer_sup(fi, facts, bw, hb, lit):
     return sup, opaque
 
 
+def _buffer_admitted(fi, facts, bw, hb, lit):
+    """[(fact, lower end or None, upper end or None, strict)]: for every
+    validation fact of _rotamers that is an order comparison of affine
+    functions of the buffer over the literal boundary set `lit`, the half-line
+    of buffers it admits (`lower` <(=) buffer, or buffer <(=) `upper`; a
+    fact without the buffer that folds to False admits nothing: lower = +inf)."""
+    out = []
+    for a in facts:
+        if not isinstance(a, Cmp):
+            continue
+        less = a.as_less()
+        if less is None:
+            continue
+        small, strict, big = less
+        xs, xb = canon(fi.expand(small)), canon(fi.expand(big))
+        if bw not in names_loaded(xs) | names_loaded(xb):
+            continue
+        x, y = _aff(xs, bw, hb, lit), _aff(xb, bw, hb, lit)
+        if x is None or y is None:
+            continue
+        d1, d0 = y[0] - x[0], y[1] - x[1]          # 0 <(=) d1 * b + d0
+        if d1 < 0:
+            out.append((a, None, d0 / -d1, strict))
+        elif d1 > 0:
+            out.append((a, -d0 / d1, None, strict))
+    return out
+
+
+def d3_buffer_admitted(ck, mod, fi, facts, bw, hb, lit, users):
+    """The other half of the buffer range: the validation must not REJECT a
+    buffer the property covers.  For a literal boundary set with widest basin
+    w every buffer in [0, (360 - w) / 2) is unambiguously "in range" (every
+    widened basin stays a proper arc of the circle; 0 is plain binning; the
+    library default 15 lies inside for every set it passes).  Each
+    validation fact holds on every path that reaches the result, so ONE fact
+    that excludes such a buffer makes _rotamers raise for an admitted input."""
+    rule = 'C20.D3.gates.buffer-admitted'
+    widest = max(b - a for a, b in zip(lit[:-1], lit[1:]))
+    need = (360 - widest) / 2.0
+    if need <= 0:
+        return
+    con = 'buffers the validation lets through for the boundary set %s' % (list(lit),)
+    rows = _buffer_admitted(fi, facts, bw, hb, lit)
+    bad, site = [], None
+    for a, lo, hi, strict in rows:
+        if (lo is not None and (lo > 0 or (lo == 0 and strict))) or (hi is not None and hi < need - 1e-9):
+            site = site or (a.lhs if hasattr(a.lhs, 'lineno') else a.rhs if hasattr(a.rhs, 'lineno') else None)
+        if lo is not None and (lo > 0 or (lo == 0 and strict)):
+            bad.append('`%s` must hold to get past the validation: only buffers %s %g pass, so %s raises' % (
+                a, '>' if strict else '>=', lo, 'a zero buffer (plain binning)' if lo == 0 else 'every buffer below %g (e.g. 0%s)' % (lo, ', 15' if lo > 15 else '')))
+        elif hi is not None and hi < need - 1e-9:
+            bad.append('`%s` must hold to get past the validation: only buffers %s %g pass, so every buffer between %g and %g raises%s' % (
+                a, '<' if strict else '<=', hi, hi, need, ' (e.g. the default 15)' if hi < 15 else ''))
+    if bad:
+        ck.bad(rule, mod, site or fi.fn, '_rotamers', con,
+               'for the boundary set %s (passed by %s, widest basin %g) every buffer in [0, %g) keeps each widened basin a proper arc of the circle and is '
+               'inside the property\'s range, but %s' % (list(lit), ', '.join(sorted(set(users))), widest, need, '; '.join(bad)))
+    elif rows:
+        ck.ok(rule, mod, fi.fn, con, 'no validation condition excludes a buffer of [0, %g)' % need)
+
+
 def d3_buffer_range(ck, mod, exit_info):
     """The wrap-around basin is recognised by is_buffered_transition through
     `upper gate < lower gate` alone.  For the basin [lo, hi] of width w the
@@ -1791,6 +1866,7 @@ def d3_buffer_range(ck, mod, exit_info):
     failing = []
     for lit, users in sorted(sets.items()):
         sup, opaque = _buffer_sup(fi, facts, bw, hb, lit)
+        d3_buffer_admitted(ck, mod, fi, facts, bw, hb, lit, users)
         widest = max(b - a for a, b in zip(lit[:-1], lit[1:]))
         con = 'buffer range admitted for the boundary set %s' % (list(lit),)
         who = ', '.join(sorted(set(users)))
@@ -2371,6 +2447,13 @@ def d1_wrapped_angles(ck, mod):
                 continue                      # not "the negative entries of X"
             n += 1
             ck.analysed(mod, fn)
+            # the wrap moves exactly the NEGATIVE entries: `X <= 0` also selects an angle of exactly 0, which lies
+            # in [0, P) already - it becomes P and is then clamped to a value just below P, i.e. it crosses the 0/P seam
+            ck.check(less[1], 'C20.D1.angles-wrap-mask', mod, W, q, 'entries moved by the wrap +%g: %s' % (P, u(m)),
+                     'only the negative entries are moved by the period',
+                     '`%s` also adds the period to an entry that is exactly 0: an angle of 0 lies in [0, %g) already; it becomes %g and is then '
+                     'clamped just below %g - on the other side of the 0/%g seam, so a first frame at angle 0 is given the LAST basin '
+                     'instead of basin 0 (the mask of the wrap must be the strict `%s < 0`)' % (u(W), P, P, P, P, X))
             clamps = []
             for C in walk_local(fn):
                 if C is W or not isinstance(C, (ast.Assign, ast.AugAssign)):
@@ -2415,6 +2498,377 @@ def d1_wrapped_angles(ck, mod):
                        '_rotamers receives an angle that lies in no basin: the first frame keeps the marker -1, a later frame gets '
                        'basin index n_basins (np.digitize) and get_gates indexes past the boundaries (IndexError)' % (u(W), P, P, P, X))
     ck.floor(rule, n, 2, 'in-place wraps of negative angles in rotamer.py')
+
+
+# ---------------------------------------------------------------------------
+# D1 (drivers): one dihedral = one column = one run of the state machine
+
+_FULL = lambda sl: isinstance(sl, ast.Slice) and sl.lower is None and sl.upper is None and sl.step is None
+_ALLOCS = ('np.zeros', 'np.empty', 'np.ones', 'np.full', 'numpy.zeros', 'numpy.empty', 'numpy.ones', 'numpy.full')
+
+
+def _series_axis(e, i):
+    """(array name, axis) when `e` selects, with the loop index `i`, the
+    whole 1-D section number i of a 2-D array along `axis` (1: column
+    `X[:, i]`, `X[..., i]`, `X.T[i]`; 0: row `X[i]`, `X[i, :]`, `X.T[:, i]`);
+    None for any other shape of expression."""
+    if not isinstance(e, ast.Subscript):
+        return None
+    base, flip = e.value, 0
+    if isinstance(base, ast.Attribute) and base.attr == 'T':
+        base, flip = base.value, 1
+    if not isinstance(base, ast.Name):
+        return None
+    is_i = lambda x: isinstance(x, ast.Name) and x.id == i
+    sl = e.slice
+    if is_i(sl):
+        return base.id, 0 ^ flip
+    if isinstance(sl, ast.Tuple) and len(sl.elts) == 2:
+        a, b = sl.elts
+        if is_i(a) and _FULL(b):
+            return base.id, 0 ^ flip
+        if is_i(b) and (_FULL(a) or (isinstance(a, ast.Constant) and a.value is Ellipsis)):
+            return base.id, 1 ^ flip
+    return None
+
+
+def _extent(fi, e, at, depth=4):
+    """(array name, axis, statement that reads the shape) when `e` (read at statement `at`) is the extent of
+    an array along an axis: `A.shape[k]`, `len(A)`, or a name bound by
+    `n = <that>` / `.., n, .. = A.shape`."""
+    if isinstance(e, ast.Subscript) and isinstance(e.value, ast.Attribute) and e.value.attr == 'shape' \
+            and isinstance(e.value.value, ast.Name) and type(const_value(e.slice)) is int:
+        return e.value.value.id, const_value(e.slice), at
+    if isinstance(e, ast.Call) and call_name(e) == 'len' and len(e.args) == 1 and isinstance(e.args[0], ast.Name):
+        return e.args[0].id, 0, at
+    if isinstance(e, ast.Name) and depth > 0:
+        defs = fi.rd.defs_at(at, e.id)
+        if len(defs) != 1:
+            return None
+        site = next(iter(defs))
+        if not isinstance(site, ast.Assign) or len(site.targets) != 1:
+            return None
+        t, v = site.targets[0], site.value
+        if isinstance(t, ast.Name):
+            return _extent(fi, v, site, depth - 1)
+        if isinstance(t, (ast.Tuple, ast.List)) and isinstance(v, ast.Attribute) and v.attr == 'shape' and isinstance(v.value, ast.Name):
+            ks = [k for k, x in enumerate(t.elts) if isinstance(x, ast.Name) and x.id == e.id]
+            if len(ks) == 1 and not any(isinstance(x, ast.Starred) for x in t.elts):
+                return v.value.id, ks[0], site
+    return None
+
+
+def _same_shape(fi, a, b, at):
+    """Array names `a` and `b` (read at statement `at`) have the same shape
+    for sure: the same name, or one is bound once to an elementwise
+    arithmetic expression of the other and numbers."""
+    if a == b:
+        return True
+    for x, y in ((a, b), (b, a)):
+        defs = [d for d in fi.rd.defs_at(at, x) if not isinstance(d, str)]
+        if len(defs) == 1 and isinstance(defs[0], ast.Assign):
+            v = fi.def_value(defs[0], x)
+            if v is not None and names_loaded(v) == {y} and all(
+                    isinstance(n, (ast.BinOp, ast.UnaryOp, ast.Name, ast.Constant, ast.operator, ast.unaryop, ast.expr_context)) for n in ast.walk(v)):
+                return True
+    return False
+
+
+def _oriented(fi, X, at, seen=None, mixed=None):
+    """The array `X` read at `at` is (n_frames, n_dihedrals) for sure: every
+    reaching definition is the first result of dihedral_angles, an append of
+    such arrays along axis 1, or elementwise arithmetic of such an array."""
+    seen = seen if seen is not None else set()
+    defs = fi.rd.defs_at(at, X)
+    if not defs:
+        return False
+    result = True
+    for d in defs:
+        if (id(d), X) in seen:
+            continue
+        seen.add((id(d), X))
+        if isinstance(d, str) or not isinstance(d, ast.Assign) or len(d.targets) != 1:
+            return False
+        t, v = d.targets[0], d.value
+        if isinstance(t, (ast.Tuple, ast.List)):
+            if not (isinstance(v, ast.Call) and call_name(v) == 'dihedral_angles' and isinstance(t.elts[0], ast.Name) and t.elts[0].id == X):
+                return False
+            continue
+        if not (isinstance(t, ast.Name) and t.id == X):
+            return False
+        if isinstance(v, ast.Call) and call_name(v) in ('np.append', 'np.concatenate', 'np.hstack'):
+            parts = v.args[0].elts if call_name(v) != 'np.append' and v.args and isinstance(v.args[0], (ast.Tuple, ast.List)) else v.args[:2] if call_name(v) == 'np.append' else None
+            axis = 1 if call_name(v) == 'np.hstack' else const_value(kwarg(v, 'axis')) if kwarg(v, 'axis') is not None else None
+            laid = bool(parts) and all(isinstance(x, ast.Name) and _oriented(fi, x.id, d, seen, mixed) for x in parts)
+            if laid and axis == 0 and mixed is not None and call_name(v) in ('np.append', 'np.concatenate'):
+                mixed.append(d)             # (n_frames, a) and (n_frames, b) glued along the FRAME axis
+            if not laid or axis != 1:
+                result = False
+            continue
+        if names_loaded(v) and all(isinstance(n, (ast.BinOp, ast.UnaryOp, ast.Name, ast.Constant, ast.operator, ast.unaryop, ast.expr_context)) for n in ast.walk(v)) \
+                and all(_oriented(fi, y, d, seen, mixed) for y in names_loaded(v)):
+            continue
+        return False
+    return result
+
+
+def _wrapped_arrays(fn):
+    """Names of the arrays a function brings into [0, P) in place (`X[mask] += P`)."""
+    out = set()
+    for W in walk_local(fn):
+        if isinstance(W, ast.AugAssign) and isinstance(W.op, ast.Add) and isinstance(W.target, ast.Subscript) \
+                and isinstance(W.target.value, ast.Name) and (_num(W.value) or 0) > 0:
+            out.add(W.target.value.id)
+    return out
+
+
+def _first_result(fn):
+    """The expression every `return` hands back as (first element of) the result; None if they differ."""
+    vals = []
+    for r in returns_of(fn):
+        v = r.value
+        if isinstance(v, ast.Tuple) and v.elts:
+            v = v.elts[0]
+        vals.append(v)
+    if not vals or any(v is None for v in vals) or len({u(v) for v in vals}) != 1:
+        return None
+    return vals[0]
+
+
+def _result_layout(fi, R, at, X):
+    """`R` (stored into at `at`) was allocated once with the shape
+    (<extent of axis 0>, <extent of axis 1>) of an array shaped like `X`."""
+    defs = fi.rd.defs_at(at, R)
+    if len(defs) != 1 or not isinstance(next(iter(defs)), ast.Assign):
+        return False
+    d = next(iter(defs))
+    v = fi.def_value(d, R)
+    if not (isinstance(v, ast.Call) and call_name(v) in _ALLOCS and v.args and isinstance(v.args[0], ast.Tuple) and len(v.args[0].elts) == 2):
+        return False
+    es = [_extent(fi, x, d) for x in v.args[0].elts]
+    return all(e is not None and e[1] == k and _same_shape(fi, e[0], X, d) for k, e in enumerate(es))
+
+
+def d1_drivers(ck, mod):
+    """The wrappers (phi/psi/chi_rotamers) run the state machine once per
+    dihedral: the angles are an (n_frames, n_dihedrals) array, the history of
+    dihedral i is COLUMN i, and its states are column i of the result.
+    Necessary conditions, per call of _rotamers in a module-level function:
+    the first argument is the whole column i of an array X, i being the index
+    of the enclosing loop, which runs over range(<extent of axis 1 of an array
+    of X's shape>); the value of the call is stored into the whole column i
+    of the array that is the function's (first) result; the buffer argument is
+    the wrapper's own parameter; if the wrapper brings an array derived from X
+    into [0, 360) in place, it is that array - not the raw X - that the
+    machine must see.  A function that fetches dihedral angles but never
+    reaches _rotamers returns something else than states."""
+    rule = 'C20.D1.drivers'
+    machine = mod.func('_rotamers')
+    sig = params(machine)
+    if len(sig) < 3:
+        return
+    p_ang, _p_hb, p_bw = sig[:3]
+    n_calls = 0
+    for q, fn in mod.functions.items():
+        if '.' in q or fn is machine:
+            continue
+        calls = [c for c in calls_in(fn) if call_name(c) == '_rotamers']
+        fetches = [c for c in calls_in(fn) if call_name(c) == 'dihedral_angles']
+        if not calls:
+            if fetches and not any(call_name(c) in mod.functions and call_name(c) not in ('dihedral_angles',) and
+                                   any(call_name(k) == '_rotamers' for g in callees_closure(mod, mod.functions[call_name(c)]) for k in calls_in(g))
+                                   for c in calls_in(fn)):
+                ck.analysed(mod, fn)
+                fi = finfo(mod, fn)
+                res = _first_result(fn)
+                alloc = None
+                if isinstance(res, ast.Name):
+                    defs = {d for r in returns_of(fn) for d in fi.rd.defs_at(r, res.id)}
+                    if len(defs) == 1 and isinstance(next(iter(defs)), ast.Assign):
+                        v = fi.def_value(next(iter(defs)), res.id)
+                        untouched = not subscript_stores(fn, res.id) and not fi._mutated_in_place(res.id) and not any(
+                            res.id in names_loaded(a) for c in calls_in(fn) for a in list(c.args) + [k.value for k in c.keywords])
+                        if isinstance(v, ast.Call) and call_name(v) in _ALLOCS and untouched:
+                            alloc = next(iter(defs))
+                if alloc is not None:
+                    ck.bad(rule + '.states', mod, alloc, q, 'result of %s: %s' % (q, u(alloc)),
+                           '%s fetches dihedral angles but never calls _rotamers, and the array it returns is the untouched allocation `%s`: '
+                           'every frame of every dihedral reports the fill value instead of the state of the hysteresis machine' % (q, u(alloc)))
+                # any other function that merely fetches angles (a helper that gathers them) is not a wrapper;
+                # a wrapper that lost its call shows up in the floor below
+            continue
+        ck.analysed(mod, fn)
+        fi = finfo(mod, fn)
+        wrapped = _wrapped_arrays(fn)
+        res = _first_result(fn)
+        for c in calls:
+            n_calls += 1
+            b = bind_args(c, sig)
+            loop = _enclosing_loop(mod, c, fn)
+            # `for i in <range>` or `for i, section in enumerate(X.T / X)` (section i of X, by construction all of them)
+            i = el = whole = None
+            if isinstance(loop, ast.For) and isinstance(loop.target, ast.Name):
+                i = loop.target.id
+            elif isinstance(loop, ast.For) and isinstance(loop.target, ast.Tuple) and len(loop.target.elts) == 2 \
+                    and all(isinstance(x, ast.Name) for x in loop.target.elts) and isinstance(loop.iter, ast.Call) \
+                    and call_name(loop.iter) == 'enumerate' and len(loop.iter.args) == 1 and not loop.iter.keywords:
+                src = fi.expand(loop.iter.args[0])
+                flip = isinstance(src, ast.Attribute) and src.attr == 'T'
+                src = src.value if flip else src
+                if isinstance(src, ast.Name) and not assigns_to(loop, src.id) and not assigns_to(loop, loop.target.elts[1].id):
+                    i, el, whole = loop.target.elts[0].id, loop.target.elts[1].id, (src.id, 1 if flip else 0)
+            if b is None or p_ang not in b or i is None or assigns_to(loop, i):
+                ck.missing(rule + '.series', 'call `%s` in %s: not inside a `for <dihedral> in ...` loop / arguments not bound' % (u(c)[:80], q))
+                continue
+            at = fi.stmt(c)
+            # --- the history handed to the machine
+            arg = value_preserving(fi.expand(b[p_ang]))
+            sa = whole if (isinstance(arg, ast.Name) and arg.id == el) else _series_axis(arg, i)
+            con = '%s  [%s = %s]' % (u(c)[:120], p_ang, u(arg))
+            if sa is None:
+                ck.missing(rule + '.series', 'angle argument of `%s` in %s is not section %s of a 2-D array' % (u(c)[:80], q, i))
+                continue
+            X, ax = sa
+            mixed = []
+            known = _oriented(fi, X, at, None, mixed)
+            for d in mixed:
+                ck.bad(rule + '.series', mod, d, q, u(d)[:160],
+                       'the arrays joined here are both (n_frames, n_dihedrals) angle arrays of dihedral_angles: joined along axis 0 the angles of OTHER '
+                       'dihedrals are appended to each history as if they were later frames (or the call fails when the numbers of dihedrals differ); '
+                       'further dihedrals are further COLUMNS (axis=1) of the array whose columns go to _rotamers')
+            if ax != 1 and not known:
+                ck.missing(rule + '.series', 'angle argument `%s` of the call in %s: the layout of %s is not known to be (n_frames, n_dihedrals)' % (u(arg), q, X))
+                continue
+            ck.check(ax == 1, rule + '.series', mod, c, q, con, 'the history of dihedral %s is column %s of %s' % (i, i, X),
+                     'the angles are an (n_frames, n_dihedrals) array: the history of dihedral %s is the column %s[:, %s]; `%s` is ROW %s - the '
+                     'angles of all dihedrals in frame %s - so the state machine runs over a sequence that is not a time series' % (i, X, i, u(arg), i, i))
+            # --- the loop visits every dihedral
+            it = fi.expand(loop.iter)
+            ext = (whole[0], whole[1], at) if whole is not None else None
+            if ext is None and isinstance(it, ast.Call) and call_name(it) in ('range', 'np.arange') and not it.keywords and (
+                    len(it.args) == 1 or (len(it.args) == 2 and const_value(it.args[0]) == 0)):
+                ext = _extent(fi, it.args[-1], loop)
+            if ext is None:
+                ck.missing(rule + '.every-dihedral', 'bound of the dihedral loop `for %s in %s` in %s not recognised as the extent of an array axis' % (i, u(loop.iter)[:60], q))
+            elif not _same_shape(fi, ext[0], X, at) or fi.rd.defs_at(ext[2], ext[0]) != fi.rd.defs_at(at, ext[0]):
+                ck.missing(rule + '.every-dihedral', 'the dihedral loop of %s runs over an axis of %s, whose shape is not known to be that of %s' % (q, ext[0], X))
+            else:
+                if ext[1] != 1 and not known:
+                    ck.missing(rule + '.every-dihedral', 'dihedral loop of %s: the layout of %s is not known to be (n_frames, n_dihedrals)' % (q, X))
+                    continue
+                ck.check(ext[1] == 1, rule + '.every-dihedral', mod, loop, q, 'for %s in %s  [= range(%s.shape[%d])]' % (i, u(loop.iter), ext[0], ext[1]),
+                         'one run of the machine per column', 'the dihedrals are the COLUMNS of %s: the loop must run over range(%s.shape[1]), not over the number of frames' % (X, X))
+            # --- the machine sees the angles that were brought into [0, 360)
+            if wrapped and X not in wrapped:
+                src = [w for w in wrapped if _same_shape(fi, w, X, at) and w != X]
+                if src:
+                    ck.bad(rule + '.series', mod, c, q, con,
+                           '%s brings `%s` (derived from %s) into [0, 360) but hands the raw `%s` to the state machine: the shifted / wrapped angles never '
+                           'reach _rotamers, whose boundaries are those of the shifted scale' % (q, src[0], X, X))
+            # --- the states go to column i of the result
+            sts = [s_ for s_, _t in subscript_stores(loop) if isinstance(s_, ast.Assign) and len(s_.targets) == 1
+                   and isinstance(s_.targets[0], ast.Subscript) and value_call(fi, s_.value, '_rotamers') is c]
+            st = sts[0] if len(sts) == 1 else None
+            if st is None:
+                ck.missing(rule + '.store', 'the value of `%s` in %s is not stored directly into a section of an array' % (u(c)[:80], q))
+            else:
+                ta = _series_axis(st.targets[0], i)
+                if ta is None:
+                    ck.missing(rule + '.store', 'store target `%s` in %s is not section %s of a 2-D array' % (u(st.targets[0]), q, i))
+                else:
+                    R, rax = ta
+                    if rax != 1 and not (known and _result_layout(fi, R, st, X)):
+                        ck.missing(rule + '.store', 'store `%s` in %s: the layout of %s is not known to be that of the angle array' % (u(st.targets[0]), q, R))
+                        continue
+                    ck.check(rax == 1, rule + '.store', mod, st, q, u(st)[:160], 'the states of dihedral %s become column %s of %s' % (i, i, R),
+                             'the states of dihedral %s must become the column %s[:, %s] of the (n_frames, n_dihedrals) result; `%s` is row %s' % (
+                                 i, R, i, u(st.targets[0]), i))
+                    if not (isinstance(res, ast.Name) and res.id == R and not assigns_to(loop, R)):
+                        ck.missing(rule + '.store', 'the array %s that receives the states in %s is not what the function returns first' % (R, q))
+                    else:
+                        ck.ok(rule + '.store', mod, st, 'return %s' % R, 'the array of states is the first result of %s' % q)
+            # --- the buffer the caller asked for
+            if p_bw in b:
+                try:
+                    xb = value_preserving(entry_expand(fi, b[p_bw], at, stop=(i,)))
+                except Unresolved:
+                    xb = None
+                if isinstance(xb, ast.Name) and xb.id in params(fn):
+                    ck.ok(rule + '.buffer', mod, c, '%s = %s' % (p_bw, u(b[p_bw])), 'the wrapper passes its own buffer parameter on')
+                else:
+                    ck.missing(rule + '.buffer', 'buffer argument `%s` of the call in %s is not a parameter of the wrapper at its entry value' % (u(b[p_bw])[:60], q))
+            else:
+                ck.missing(rule + '.buffer', 'the call `%s` in %s leaves the buffer to the default of _rotamers' % (u(c)[:80], q))
+    ck.floor(rule + '.series', n_calls, 3, 'calls of _rotamers in the wrappers (phi, psi, chi)')
+
+
+def d1_angle_source(ck, mod):
+    """dihedral_angles answers a request for a dihedral type it knows with the
+    pair the wrappers unpack.  The types the wrappers ask for are string
+    literals; a membership test of the type parameter in a literal list is
+    folded for each of them (a finite domain), which tells which `return` the
+    request reaches: it must be a tuple of as many elements as the caller
+    unpacks, none of them the constant None (the reject value)."""
+    rule = 'C20.D1.drivers.angle-source'
+    if 'dihedral_angles' not in mod.functions:
+        return
+    src = mod.functions['dihedral_angles']
+    sp = params(src)
+    if len(sp) != 2:
+        return
+    sfi = finfo(mod, src)
+    rets = returns_of(src)
+    n = 0
+    for q, fn in mod.functions.items():
+        if '.' in q or fn is src:
+            continue
+        for c in calls_in(fn):
+            if call_name(c) != 'dihedral_angles':
+                continue
+            b = bind_args(c, sp)
+            t = const_value(b[sp[1]]) if b and sp[1] in b else None
+            st = mod.enclosing_stmt(c)
+            want = len(st.targets[0].elts) if isinstance(st, ast.Assign) and st.value is c and len(st.targets) == 1 \
+                and isinstance(st.targets[0], (ast.Tuple, ast.List)) else None
+            if not isinstance(t, str) or want is None:
+                continue
+            reached, unknown = [], False
+            for r in rets:
+                atoms = guard_atoms(sfi, r)
+                if atoms is None:
+                    unknown = True
+                    continue
+                verdict = True
+                for a in atoms:
+                    val = None
+                    if isinstance(a, Cmp) and a.op in (ast.In, ast.NotIn) and isinstance(a.lhs, ast.Name) and a.lhs.id == sp[1] \
+                            and sfi.defs_of_use(a.lhs) == {'PARAM'}:
+                        lst = sfi.expand(a.rhs)
+                        if isinstance(lst, (ast.List, ast.Tuple, ast.Set)) and all(isinstance(const_value(x), str) for x in lst.elts):
+                            val = (t in [const_value(x) for x in lst.elts]) == (a.op is ast.In)
+                    if val is False:
+                        verdict = False
+                        break
+                    if val is None:
+                        verdict = None
+                if verdict is True:
+                    reached.append(r)
+                elif verdict is None:
+                    unknown = True
+            if unknown or len(reached) != 1:
+                continue
+            r = reached[0]
+            n += 1
+            ck.analysed(mod, src)
+            v = r.value
+            good = isinstance(v, ast.Tuple) and len(v.elts) == want and not any(isinstance(x, ast.Constant) and x.value is None for x in v.elts)
+            if good:
+                ck.ok(rule, mod, r, "dihedral_angles(.., '%s') -> %s" % (t, u(r)), 'the request of %s reaches the return of the angle pair' % q)
+            elif isinstance(v, ast.Tuple) and (len(v.elts) != want or all(isinstance(x, ast.Constant) and x.value is None for x in v.elts)):
+                ck.bad(rule, mod, r, 'dihedral_angles', "return reached for dihedral_type = '%s'" % t,
+                       "%s asks dihedral_angles for '%s' and unpacks %d values, but for that type the membership test sends the call to `%s` "
+                       '(the reject value): no angles reach the state machine for a dihedral type the library itself requests' % (q, t, want, u(r)))
+    return n
 
 
 # ---------------------------------------------------------------------------
@@ -2975,6 +3429,8 @@ def check(ck):
     d3_gates(ck, mod, memo, comp)
     d3_buffer_range(ck, mod, d3_exit_test(ck, mod, comp) or {})
     d1_wrapped_angles(ck, mod)
+    d1_drivers(ck, mod)
+    d1_angle_source(ck, mod)
     d2_transitions(ck)
     d2_empty_result(ck)
     check_no_arg_mutation(ck, 'C20.D4.inputs-unmodified', [(RO, '_rotamers'), (RO, 'get_gates'), (RO, 'is_buffered_transition'), (DI, 'transitions')])
